@@ -84,7 +84,7 @@ TReset ==
      IN /\ disk' = ds /\ disk0' = ds /\ pre' = ds
         /\ dirs' = [v \in 1..e.nvol |-> AbsTree(ds[v])]
         /\ dur' = [v \in 1..e.nvol |-> {}]
-        /\ minfo' = [v \in 1..e.nvol |-> [f |-> -1, n |-> -1, free |-> 0]]
+        /\ minfo' = [v \in 1..e.nvol |-> [f |-> -1, n |-> -1, free |-> 0, under |-> FALSE]]
         /\ hid' = e.hid
         /\ lim' = [d |-> e.lim[1], f |-> e.lim[2], v |-> e.lim[3]]
         /\ viol' = LET bad == {v \in 1..e.nvol : WellFormedWhy(ds[v], {}) # "ok"} IN
@@ -214,18 +214,22 @@ TW ==
   /\ LET e == Rec[l]  v == e.vol IN
      IF v = 0
      THEN /\ viol' = Report({<<"C04", "WriteLegal", "outside-any-volume:" \o e.reg>>})
-          /\ UNCHANGED disk
+          /\ UNCHANGED <<disk, minfo>>
      ELSE LET d == disk[v]
               d2 == ApplyW(d, e)
               wl == IF "panicked" \in DOMAIN call.a THEN "ok" ELSE WriteLegalWhy(call, pre[v], d, e, v)
               cs == CrashSafeWhy(d2, pre[v])
               du == {r \in dur[v] : ~DurableOK(d2, r)}
           IN /\ disk' = [disk EXCEPT ![v] = d2]
+             \* a stale stored count that is smaller than the number of clusters taken since mount
+             \* cannot be kept exact (it would have to go below zero): remember that it happened
+             /\ minfo' = IF e.reg = "fat1" /\ minfo[v].f >= 0 /\ minfo[v].f + (Cardinality(FreeSet(d2)) - minfo[v].free) < 0
+                          THEN [minfo EXCEPT ![v].under = TRUE] ELSE minfo
              /\ viol' = Report(   (IF wl = "ok" THEN {} ELSE {<<"C04", "WriteLegal", wl>>})
                              \cup (IF cs = "ok" THEN {} ELSE {<<"C10", "CrashSafe", cs \o ":" \o call.op>>})
                              \cup (IF du = {} THEN {} ELSE {<<"C09", "Durable", call.op>>}))
   /\ l' = l + 1
-  /\ UNCHANGED <<hid, disk0, pre, call, dur, minfo, flt, fltd, dead, wfseen, apiVars>>
+  /\ UNCHANGED <<hid, disk0, pre, call, dur, flt, fltd, dead, wfseen, apiVars>>
 
 TFail ==
   /\ IsEv("Fail") /\ ~dead
@@ -343,7 +347,7 @@ StateChecks(op, obs, fateq) ==
     : v \in DOMAIN disk}
   \cup (IF ObsOK(obs) THEN {} ELSE {<<"C01", "Observers", "length/offset/eof differ from the model:" \o op>>})
 
-Desync(tags) == \E t \in tags : t[2] \in {"Refines", "Result", "Observers", "PendingData", "Handle", "Panic", "ReadData", "Listing", "Lookup"}
+DesyncTags == {"Refines", "Result", "Observers", "PendingData", "Handle", "Panic", "ReadData"}
 
 \* the generic shape of a Return: admissibility, post-state, then the state checks
 \* refs: refusal set; okPost: action for success; extra: additional tags (computed from primed state)
@@ -353,7 +357,8 @@ InfoTags(v, wrote) ==
   LET d == disk[v]  m == minfo[v] IN
   IF ~d.g.fat32 \/ fltd \/ ~wrote THEN {}
   ELSE (IF m.f = -1 /\ d.info.f # -1 THEN {<<"C16", "InfoTruthful", "unknown count became known">>} ELSE {})
-    \cup (IF m.f >= 0 /\ d.info.f - m.f # Cardinality(FreeSet(d)) - m.free
+    \* a stale count cannot follow the change below zero: then nothing is demanded of it
+    \cup (IF m.f >= 0 /\ ~m.under /\ d.info.f - m.f # Cardinality(FreeSet(d)) - m.free
           THEN {<<"C16", "InfoTruthful", "free count drifted">>} ELSE {})
     \cup (IF d.info.n # m.n /\ ~(d.info.n = -1 \/ d.info.n \in Valid(d.g))
           THEN {<<"C16", "InfoTruthful", "next-free hint outside the volume">>} ELSE {})
@@ -383,10 +388,9 @@ TRet ==
         /\ LET refs == OpenVolumeRefs(v, v # 0) IN
            IF Admissible(refs, r)
            THEN /\ IF ok THEN OpenVolumePost(v, r.v.h) ELSE UNCHANGED apiVars
-                /\ minfo' = IF ok THEN [minfo EXCEPT ![v] = [f |-> disk[v].info.f, n |-> disk[v].info.n, free |-> Cardinality(FreeSet(disk[v]))]] ELSE minfo
+                /\ minfo' = IF ok THEN [minfo EXCEPT ![v] = [f |-> disk[v].info.f, n |-> disk[v].info.n, free |-> Cardinality(FreeSet(disk[v])), under |-> FALSE]] ELSE minfo
                 /\ viol' = Report((IF ok THEN NewHandleTags(r.v.h) ELSE {}) \cup StateChecks(op, e.obs, e.fateq))
-                /\ dead' = FALSE
-           ELSE /\ UNCHANGED apiVars /\ minfo' = minfo /\ dead' = TRUE
+           ELSE /\ UNCHANGED apiVars /\ minfo' = minfo
                 /\ viol' = Report({<<ResProp(op, refs, r), "Result", op \o ":" \o r.k \o ":" \o r.e>>})
         /\ dur' = dur
      \/ /\ op = "close_volume"
@@ -395,8 +399,7 @@ TRet ==
            THEN /\ IF ok THEN CloseVolumePost(a.v) ELSE UNCHANGED apiVars
                 /\ viol' = Report(StateChecks(op, e.obs, e.fateq) \cup (IF ok THEN InfoTags(v, TRUE) ELSE {})
                                   \cup (IF ~ok /\ disk # pre THEN {<<"C08", "Refused", "refused call wrote">>} ELSE {}))
-                /\ dead' = FALSE
-           ELSE /\ UNCHANGED apiVars /\ dead' = TRUE
+           ELSE /\ UNCHANGED apiVars
                 /\ viol' = Report({<<ResProp(op, refs, r), "Result", op \o ":" \o r.k \o ":" \o r.e>>})
         /\ dur' = dur /\ minfo' = minfo
      \/ /\ op = "open_root"
@@ -404,8 +407,7 @@ TRet ==
            IF Admissible(refs, r)
            THEN /\ IF ok THEN OpenRootPost(a.v, r.v.h) ELSE UNCHANGED apiVars
                 /\ viol' = Report((IF ok THEN NewHandleTags(r.v.h) ELSE {}) \cup StateChecks(op, e.obs, e.fateq))
-                /\ dead' = FALSE
-           ELSE /\ UNCHANGED apiVars /\ dead' = TRUE
+           ELSE /\ UNCHANGED apiVars
                 /\ viol' = Report({<<ResProp(op, refs, r), "Result", op \o ":" \o r.k \o ":" \o r.e>>})
         /\ dur' = dur /\ minfo' = minfo
      \/ /\ op \in {"open_dir", "change_dir"}
@@ -417,8 +419,7 @@ TRet ==
                          ELSE UNCHANGED apiVars
                 /\ viol' = Report((IF ok THEN NewHandleTags(r.v.h) ELSE {}) \cup StateChecks(op, e.obs, e.fateq)
                                   \cup (IF disk # pre THEN {<<"C07", "Refused", "open_dir wrote">>} ELSE {}))
-                /\ dead' = FALSE
-           ELSE /\ UNCHANGED apiVars /\ dead' = TRUE
+           ELSE /\ UNCHANGED apiVars
                 /\ viol' = Report({<<ResProp(op, refs, r), "Result", op \o ":" \o r.k \o ":" \o r.e>>})
         /\ dur' = dur /\ minfo' = minfo
      \/ /\ op = "close_dir"
@@ -426,8 +427,7 @@ TRet ==
            IF Admissible(refs, r)
            THEN /\ IF refs = {} THEN CloseDirPost(a.d) ELSE UNCHANGED apiVars
                 /\ viol' = Report(StateChecks(op, e.obs, e.fateq))
-                /\ dead' = FALSE
-           ELSE /\ UNCHANGED apiVars /\ dead' = TRUE
+           ELSE /\ UNCHANGED apiVars
                 /\ viol' = Report({<<ResProp(op, refs, r), "Result", op \o ":" \o r.k \o ":" \o r.e>>})
         /\ dur' = dur /\ minfo' = minfo
      \/ /\ op = "find"
@@ -438,8 +438,7 @@ TRet ==
                      \cup (IF ok /\ ~EntryMatchesSlot(r.v, EntryPos(disk[v], RecOf(odirs, a.d).id, a.nm))
                            THEN {<<"C06", "Lookup", "find returned something else than the first live entry of that name">>} ELSE {})
                      \cup (IF disk # pre THEN {<<"C07", "Refused", "find wrote">>} ELSE {}))
-                /\ dead' = FALSE
-           ELSE /\ UNCHANGED apiVars /\ dead' = TRUE
+           ELSE /\ UNCHANGED apiVars
                 /\ viol' = Report({<<ResProp(op, refs, r), "Result", op \o ":" \o r.k \o ":" \o r.e>>})
         /\ dur' = dur /\ minfo' = minfo
      \/ /\ op \in {"iterate", "iterate_lfn"}
@@ -452,8 +451,7 @@ TRet ==
                      \cup (IF ok /\ \E i \in 1..Len(r.v.probe) : r.v.probe[i].e # "LockError"
                            THEN {<<"C08", "Reentrant", "a call from inside the callback did not fail with LockError">>} ELSE {})
                      \cup (IF disk # pre THEN {<<"C08", "Refused", "iteration wrote">>} ELSE {}))
-                /\ dead' = FALSE
-           ELSE /\ UNCHANGED apiVars /\ dead' = TRUE
+           ELSE /\ UNCHANGED apiVars
                 /\ viol' = Report({<<ResProp(op, refs, r), "Result", op \o ":" \o r.k \o ":" \o r.e>>})
         /\ dur' = dur /\ minfo' = minfo
      \/ /\ op = "open_file"
@@ -473,8 +471,7 @@ TRet ==
                                   \cup (IF ~ok /\ disk # pre THEN {<<"C07", "Refused", "refused open wrote">>} ELSE {}))
                 /\ dur' = IF ok /\ ~missing /\ a.mode \in {"Truncate", "CreateOrTruncate"}
                           THEN [dur EXCEPT ![v] = {x \in @ : ~(x.dir = id /\ x.n = a.nm)}] ELSE dur
-                /\ dead' = FALSE
-           ELSE /\ UNCHANGED apiVars /\ dead' = TRUE /\ dur' = dur
+           ELSE /\ UNCHANGED apiVars /\ dur' = dur
                 /\ viol' = Report({<<ResProp(op, refs, r), "Result", op \o ":" \o a.mode \o ":" \o r.k \o ":" \o r.e>>})
         /\ minfo' = minfo
      \/ /\ op = "read"
@@ -485,8 +482,7 @@ TRet ==
                      \cup (IF ok /\ ~(r.v.cnt >= 0 /\ r.v.tailok /\ ReadResOK(a.f, a.n, r.v.cnt, r.v.vals))
                            THEN {<<"C01", "ReadData", "read returned other bytes than the model holds">>} ELSE {})
                      \cup (IF disk # pre THEN {<<"C04", "Refused", "read wrote">>} ELSE {}))
-                /\ dead' = FALSE
-           ELSE /\ UNCHANGED apiVars /\ dead' = TRUE
+           ELSE /\ UNCHANGED apiVars
                 /\ viol' = Report({<<ResProp(op, refs, r), "Result", op \o ":" \o r.k \o ":" \o r.e>>})
         /\ dur' = dur /\ minfo' = minfo
      \/ /\ op = "write"
@@ -495,9 +491,9 @@ TRet ==
            IN
            IF refs # {} \/ (call.api = "eio" /\ n = 0)   \* embedded-io: an empty buffer is a no-op returning 0
            THEN IF Admissible(refs, r)
-                THEN /\ UNCHANGED apiVars /\ dead' = FALSE /\ dur' = dur
+                THEN /\ UNCHANGED apiVars /\ dur' = dur
                      /\ viol' = Report(StateChecks(op, e.obs, e.fateq) \cup (IF disk # pre THEN {<<"C07", "Refused", "refused write wrote">>} ELSE {}))
-                ELSE /\ UNCHANGED apiVars /\ dead' = TRUE /\ dur' = dur
+                ELSE /\ UNCHANGED apiVars /\ dur' = dur
                      /\ viol' = Report({<<ResProp(op, refs, r), "Result", op \o ":" \o r.k \o ":" \o r.e>>})
            ELSE LET f == RecOf(ofiles, a.f)
                     room == RoomFor(pre[v], f)
@@ -514,10 +510,9 @@ TRet ==
                              \/ r.k = "err" /\ r.e \in SpaceErrs /\ (~fits \/ zeroFull) /\ acc = Min2(n, room)
                 IN IF resOK
                    THEN /\ WritePost(a.f, a.vals, acc, now, ok, fc)
-                        /\ dead' = FALSE
                         /\ dur' = [dur EXCEPT ![v] = {x \in @ : ~(x.dir = f.dir /\ x.n = f.n)}]
                         /\ viol' = Report(StateChecks(op, e.obs, e.fateq))
-                   ELSE /\ UNCHANGED apiVars /\ dead' = TRUE /\ dur' = dur
+                   ELSE /\ UNCHANGED apiVars /\ dur' = dur
                         /\ viol' = Report({<<IF r.k = "err" /\ r.e \notin SpaceErrs THEN "C01" ELSE "C05", "Result",
                                              "write:" \o r.k \o ":" \o r.e \o (IF fits THEN ":fits" ELSE ":does-not-fit")>>})
         /\ minfo' = minfo
@@ -526,8 +521,7 @@ TRet ==
            IF Admissible(refs, r)
            THEN /\ IF ok THEN SeekPost(a.f, op, a.u) ELSE UNCHANGED apiVars
                 /\ viol' = Report(StateChecks(op, e.obs, e.fateq) \cup (IF disk # pre THEN {<<"C04", "Refused", "seek wrote">>} ELSE {}))
-                /\ dead' = FALSE
-           ELSE /\ UNCHANGED apiVars /\ dead' = TRUE
+           ELSE /\ UNCHANGED apiVars
                 /\ viol' = Report({<<ResProp(op, refs, r), "Result", op \o ":" \o r.k \o ":" \o r.e>>})
         /\ dur' = dur /\ minfo' = minfo
      \/ /\ op \in {"length", "offset", "eof"}
@@ -540,8 +534,7 @@ TRet ==
                                           [] op = "offset" -> r.v.n = f.off
                                           [] op = "eof" -> r.v.b = (f.off = Len(FileData(f))))
                            THEN {<<"C01", "Observers", op \o " differs from the model">>} ELSE {}))
-                /\ dead' = FALSE
-           ELSE /\ UNCHANGED apiVars /\ dead' = TRUE
+           ELSE /\ UNCHANGED apiVars
                 /\ viol' = Report({<<ResProp(op, refs, r), "Result", op \o ":" \o r.k \o ":" \o r.e>>})
         /\ dur' = dur /\ minfo' = minfo
      \/ /\ op \in {"flush", "close_file"}
@@ -556,8 +549,7 @@ TRet ==
                                [dur EXCEPT ![v] = {x \in @ : ~(x.dir = f.dir /\ x.n = f.n)} \cup
                                    {[dir |-> f.dir, n |-> f.n, len |-> Len(FileData(f)), data |-> FileData(f)]}]
                           ELSE dur
-                /\ dead' = FALSE
-           ELSE /\ UNCHANGED apiVars /\ dead' = TRUE /\ dur' = dur
+           ELSE /\ UNCHANGED apiVars /\ dur' = dur
                 /\ viol' = Report({<<ResProp(op, refs, r), "Result", op \o ":" \o r.k \o ":" \o r.e>>})
         /\ minfo' = minfo
      \/ /\ op = "delete"
@@ -567,8 +559,7 @@ TRet ==
                 /\ viol' = Report(StateChecks(op, e.obs, e.fateq)
                                   \cup (IF ~ok /\ disk # pre THEN {<<"C07", "Refused", "refused delete wrote">>} ELSE {}))
                 /\ dur' = IF ok THEN [dur EXCEPT ![v] = {x \in @ : ~(x.dir = RecOf(odirs, a.d).id /\ x.n = a.nm)}] ELSE dur
-                /\ dead' = FALSE
-           ELSE /\ UNCHANGED apiVars /\ dead' = TRUE /\ dur' = dur
+           ELSE /\ UNCHANGED apiVars /\ dur' = dur
                 /\ viol' = Report({<<ResProp(op, refs, r), "Result", op \o ":" \o r.k \o ":" \o r.e>>})
         /\ minfo' = minfo
      \/ /\ op = "mkdir"
@@ -586,22 +577,22 @@ TRet ==
                 /\ viol' = Report(StateChecks(op, e.obs, e.fateq)
                                   \cup (IF ok /\ pos = 0 THEN {<<"C02", "Refines", "mkdir succeeded but the entry is not on the medium">>} ELSE {})
                                   \cup (IF ~ok /\ refs \cap SpaceErrs = {} /\ disk # pre THEN {<<"C07", "Refused", "refused mkdir wrote">>} ELSE {}))
-                /\ dead' = (ok /\ pos = 0)
-           ELSE /\ UNCHANGED apiVars /\ dead' = TRUE
+           ELSE /\ UNCHANGED apiVars
                 /\ viol' = Report({<<ResProp(op, refs, r), "Result", op \o ":" \o r.k \o ":" \o r.e>>})
         /\ dur' = dur /\ minfo' = minfo
      \/ /\ op = "label"
         /\ LET refs == IF HasH(ovols, a.v) THEN {} ELSE {"BadHandle"} IN
            IF Admissible(refs, r) \/ (refs = {} /\ r.k = "err" /\ r.e = "TooManyOpenDirs" /\ Len(odirs) >= lim.d)
-           THEN /\ UNCHANGED apiVars /\ dead' = FALSE
+           THEN /\ UNCHANGED apiVars
                 /\ viol' = Report(StateChecks(op, e.obs, e.fateq))
-           ELSE /\ UNCHANGED apiVars /\ dead' = TRUE
+           ELSE /\ UNCHANGED apiVars
                 /\ viol' = Report({<<ResProp(op, refs, r), "Result", op \o ":" \o r.k \o ":" \o r.e>>})
         /\ dur' = dur /\ minfo' = minfo
      \/ /\ op = "has_open"
-        /\ UNCHANGED apiVars /\ dead' = FALSE /\ dur' = dur /\ minfo' = minfo
+        /\ UNCHANGED apiVars /\ dur' = dur /\ minfo' = minfo
         /\ viol' = Report(IF r.v.b = HasOpenTruth THEN {} ELSE {<<"C08", "HasOpen", "open-handle query does not tell the truth">>})
   /\ call' = NoCall /\ flt' = FALSE
+  /\ dead' = \E t \in (viol' \ viol) : t[3] \in DesyncTags
   /\ wfseen' = wfseen \cup {<<x, WellFormedWhy(disk[x], PendHeads(x)), Orphans(disk[x])>> : x \in DOMAIN disk}
   /\ l' = l + 1
   /\ UNCHANGED <<hid, disk, disk0, pre, fltd>>
